@@ -190,7 +190,11 @@ def cmd_check(pid, tier, seed, nshards=None, examples=None):
             import jsonschema
             with open("/root/.vp/EVIDENCE.schema.json") as f:
                 schema = json.load(f)
-            jsonschema.validate(evidence, schema)
+            try:
+                jsonschema.validate(evidence, schema)
+            except jsonschema.ValidationError as e:
+                if not violations:  # a failing run may stop before anything non-trivial was explored
+                    raise HarnessError(f"evidence does not validate: {e.message}")
         except ImportError:
             pass
         except FileNotFoundError:
